@@ -27,3 +27,4 @@ pub(crate) fn fixed_peer_id(index: u64) -> libp2p::PeerId {
 pub mod wire;
 pub mod grpc;
 pub mod node;
+pub mod store_conc;
